@@ -734,6 +734,15 @@ class Emitter:
         if k == 'item':
             raise Untranslatable('nested item')
         e = s['expr']
+        # early return guard: `if c { [stmts;] return v; } rest`  ==>  if c then v else rest
+        if e['k'] == 'if' and e['else'] is None and e['cond']['k'] != 'let' and e['then']['stmts']:
+            last = e['then']['stmts'][-1]
+            if last['k'] == 'expr' and last['expr']['k'] == 'return' and last['expr']['e'] is not None:
+                th_stmts = e['then']['stmts'][:-1] + [{'k': 'expr', 'expr': last['expr']['e'], 'semi': False}]
+                th = self.block(th_stmts, ctx, None)
+                return '(if (%s : bool) then %s else %s)' % (self.expr(e['cond'], ctx), th, self.block(rest, ctx, final))
+        if e['k'] == 'return' and e['e'] is not None and not rest:
+            return self.expr(e['e'], ctx)
         if not rest and not s['semi'] and not self.is_update(e):
             # tail expression
             return self.expr(e, ctx)
